@@ -366,6 +366,9 @@ func genStep(r *rand.Rand, w *world.World, o genOpts, nextID map[string]int, ste
 		for _, m := range gs.Asg.Members {
 			if _, ok := gs.Api[m]; !ok {
 				kc, km := size()
+				if r.Intn(8) == 0 { // the launch template changed: new nodes come in another size
+					kc, km = kc+2, km+4
+				}
 				e := Event{Ev: "register", G: g, N: m, A: kc, B: km}
 				if o.odd && r.Intn(4) == 0 {
 					e.S = []string{"empty", "short"}[r.Intn(2)]
